@@ -2,7 +2,7 @@
 # try_seeds.sh <dir-with-ID-subdirs> ID...  : apply each patch*.diff to a scratch copy of /repo and run the quick check
 base=$1; shift
 for id in "$@"; do
-  for p in $base/$id/patch*.diff; do
+  for p in $base/$id/*.diff; do
     [ -f "$p" ] || continue
     s=$(mktemp -d /tmp/try-XXXXXX)
     cp -r /repo $s/repo; rm -rf $s/repo/.git
